@@ -13,7 +13,7 @@ TRUSTED = [
     "axioms: none (Print Assumptions: Closed under the global context for every C04 theorem)",
     "PARTIAL: the theorems cover the sequential core: every validator in every mode and the whole `check` run (scanner + dispatcher + validators + collector) reach "
     "no panic site except Stave::from_feeid's for a packet naming layer 7 (known finding F6); the unreachable hint of the ALPIDE decoder; the handled sites F5/F8/F17 "
-    "(regenerated facts); the exit-status range. Termination of the scanner on arbitrary bytes, the panic site of the frame views, memory safety of the unsafe blocks, "
+    "(regenerated facts); the frame views reach the same site only; the reader loop ends within length/64 + 2 rounds on arbitrary bytes; the exit-status range. Memory safety of the unsafe blocks, "
     "thread behaviour and wall-clock time are decided by running the shipped-profile binary only",
     "gen/extract_facts.py (facts of the validator models); extraction + OCaml driver (`cli` stream: whole-run model incl. panic sites); the rebuilt binary "
     "(release profile: panic = abort, no overflow checks)",
